@@ -26,7 +26,7 @@ type ruleCase struct {
 func (g *gen) orderedNums() (string, string) {
 	for {
 		var x, y string
-		switch g.r.Intn(6) {
+		switch g.r.Intn(7) {
 		case 0: // same length, long
 			n := 20 + g.r.Intn(21)
 			x, y = g.digits(n), g.digits(n)
@@ -37,6 +37,12 @@ func (g *gen) orderedNums() (string, string) {
 			x, y = g.pick("9223372036854775807", "18446744073709551615", "99999999999999999999"), g.pick("18446744073709551616", "100000000000000000000", "36893488147419103232")
 		case 3: // small against long
 			x, y = g.digits(1+g.r.Intn(3)), g.digits(20+g.r.Intn(10))
+		case 6: // a machine-word boundary against a value well below it: [2^63, 2^64) and [2^31, 2^32) wrap in int64 / int32
+			x = g.pick("0", "5", g.digits(1+g.r.Intn(18)), "9223372036854775807", "2147483647")
+			y = g.pick("9223372036854775808", "9223372036854775809", "18446744073709551615", "1"+g.digits(19)[:1]+g.digits(18), "2147483648", "4294967295", "4294967296")
+			if by, _ := new(big.Int).SetString(y, 10); by.BitLen() > 64 {
+				y = "9223372036854775808"
+			}
 		case 4: // 9 vs 10 style
 			x, y = g.pick("9", "2", "99", "19"), g.pick("10", "11", "100", "20")
 		default:
